@@ -1,0 +1,11 @@
+//go:build verif
+
+package store
+
+// VerifSetDeleteRangeParallelThreshold lets the verification harness exercise the
+// parallel deletion path on small ranges; it returns the previous value.
+func VerifSetDeleteRangeParallelThreshold(n uint64) uint64 {
+	old := deleteRangeParallelThreshold
+	deleteRangeParallelThreshold = n
+	return old
+}
